@@ -206,8 +206,9 @@ def run(ctx):
     import gen_units
     gen_units.g_unit(ctx, "translate_init")
     gen_units.g_unit(ctx, "translate_pop")
-    k_units(ctx)
-    s_unit_and_monitor(ctx)
+    import common as _common
+    _common.guarded(ctx, "K-units", k_units, ctx)
+    _common.guarded(ctx, "S-unit and monitor", s_unit_and_monitor, ctx)
 
 
 def replay(ctx, data):
